@@ -191,7 +191,7 @@ def gen_cases(ctx):
     n_bad = 2500 if not th else 12000
     for k in range(n_ok):
         fmt = r.choice(["tum", "kitti", "euroc"])
-        nrows = r.choice([1, 1, 2, 3, 5, 8, 13]) if r.random() < 0.93 else r.randint(50, 300 if not th else 3000)
+        nrows = r.choice([1, 1, 2, 3, 5, 8, 13]) if r.random() < 0.93 else r.randint(50, 300 if not th else 1000)
         variant = r.choice(["h", "p"])
         text = assemble(r, fmt, gen_table(r, fmt, nrows))
         label = "ok"
